@@ -77,14 +77,15 @@ def main():
     with open(os.path.join(HERE, "MANIFEST.json"), "w") as fp:
         json.dump(man, fp, indent=1)
         fp.write("\n")
-    try:
-        sys.path.insert(0, "/opt/veriftools/pyvenv/lib/python3.11/site-packages")
-        import jsonschema
+    import subprocess
 
-        jsonschema.validate(man, json.load(open("/root/.vp/MANIFEST.schema.json")))
-        print("MANIFEST.json valid;", len(checks), "checks,", len(na), "not claimed")
-    except ImportError:
-        print("MANIFEST.json written (jsonschema unavailable, not validated)")
+    r = subprocess.run(
+        ["python3-vt", "-c",
+         "import json,jsonschema,sys;"
+         "jsonschema.validate(json.load(open(sys.argv[1])), json.load(open('/root/.vp/MANIFEST.schema.json')))",
+         os.path.join(HERE, "MANIFEST.json")], capture_output=True, text=True)
+    print("MANIFEST.json", "valid" if r.returncode == 0 else "INVALID " + r.stderr[-500:],
+          ";", len(checks), "checks,", len(na), "not claimed")
 
 
 if __name__ == "__main__":
